@@ -865,6 +865,13 @@ func (f *frame) applyContract(in ssa.Instruction, callee *ssa.Function, con *Con
 	env.heap = h
 	resultEnv(env, callee.Signature, rets)
 	for _, c := range con.Ensures {
+		if strings.Contains(c.Src, "fresh(") {
+			// what the callee allocated is newer than every reference the heap held before the call
+			e.assumeHeapBelow(pre, water)
+			break
+		}
+	}
+	for _, c := range con.Ensures {
 		if clauseUsesLabels(c) {
 			continue // states captured inside the callee (at(L, ...)) do not exist for the caller: the clause is not assumed
 		}
@@ -1045,14 +1052,14 @@ func (f *frame) appendB(in ssa.Instruction, c *ssa.CallCommon, args []Val, pc st
 		na := e.fresh("Happ."+name, fmt.Sprintf("(Array Int %s)", so))
 		oldRow := fmt.Sprintf("(select %s %s)", arr, a.B)
 		// kept prefix (absolute index j of the new backing array)
-		e.assume(fmt.Sprintf("(forall ((j Int)) (! (=> (and (<= %s j) (< j (+ %s %s))) (= (select %s j) (select %s (+ (- j %s) %s)))) :pattern ((select %s j))))", rO, rO, a.L, na, oldRow, rO, a.O, na))
+		e.assumeGlobal(fmt.Sprintf("(forall ((j Int)) (! (=> (and (<= %s j) (< j (+ %s %s))) (= (select %s j) (select %s (+ (- j %s) %s)))) :pattern ((select %s j))))", rO, rO, a.L, na, oldRow, rO, a.O, na))
 		// in place: everything outside the appended range is unchanged
-		e.assume(fmt.Sprintf("(=> %s (forall ((j Int)) (! (=> (or (< j (+ %s %s)) (>= j (+ %s %s))) (= (select %s j) (select %s j))) :pattern ((select %s j)))))", inPlace, a.O, a.L, a.O, newLen, na, oldRow, na))
+		e.assumeGlobal(fmt.Sprintf("(=> %s (forall ((j Int)) (! (=> (or (< j (+ %s %s)) (>= j (+ %s %s))) (= (select %s j) (select %s j))) :pattern ((select %s j)))))", inPlace, a.O, a.L, a.O, newLen, na, oldRow, na))
 		if src != nil {
 			srcRow := fmt.Sprintf("(select %s %s)", arr, src.B)
-			e.assume(fmt.Sprintf("(forall ((j Int)) (! (=> (and (<= (+ %s %s) j) (< j (+ %s %s))) (= (select %s j) (select %s (+ (- j (+ %s %s)) %s)))) :pattern ((select %s j))))", rO, a.L, rO, newLen, na, srcRow, rO, a.L, src.O, na))
+			e.assumeGlobal(fmt.Sprintf("(forall ((j Int)) (! (=> (and (<= (+ %s %s) j) (< j (+ %s %s))) (= (select %s j) (select %s (+ (- j (+ %s %s)) %s)))) :pattern ((select %s j))))", rO, a.L, rO, newLen, na, srcRow, rO, a.L, src.O, na))
 		} else if srcStr != "" && so == "Int" {
-			e.assume(fmt.Sprintf("(forall ((j Int)) (! (=> (and (<= (+ %s %s) j) (< j (+ %s %s))) (= (select %s j) (sat %s (- j (+ %s %s))))) :pattern ((select %s j))))", rO, a.L, rO, newLen, na, srcStr, rO, a.L, na))
+			e.assumeGlobal(fmt.Sprintf("(forall ((j Int)) (! (=> (and (<= (+ %s %s) j) (< j (+ %s %s))) (= (select %s j) (sat %s (- j (+ %s %s))))) :pattern ((select %s j))))", rO, a.L, rO, newLen, na, srcStr, rO, a.L, na))
 		}
 		e.setComp(h, name, fmt.Sprintf("(store %s %s %s)", arr, rB, na))
 	}
@@ -1086,12 +1093,12 @@ func (f *frame) copyB(in ssa.Instruction, c *ssa.CallCommon, args []Val, pc stri
 		arr := e.comp(h, name, so, true)
 		na := e.fresh("Hcpy."+name, fmt.Sprintf("(Array Int %s)", so))
 		oldRow := fmt.Sprintf("(select %s %s)", arr, dst.B)
-		e.assume(fmt.Sprintf("(forall ((j Int)) (! (=> (or (< j %s) (>= j (+ %s %s))) (= (select %s j) (select %s j))) :pattern ((select %s j))))", dst.O, dst.O, n, na, oldRow, na))
+		e.assumeGlobal(fmt.Sprintf("(forall ((j Int)) (! (=> (or (< j %s) (>= j (+ %s %s))) (= (select %s j) (select %s j))) :pattern ((select %s j))))", dst.O, dst.O, n, na, oldRow, na))
 		if src != nil {
 			srcRow := fmt.Sprintf("(select %s %s)", arr, src.B)
-			e.assume(fmt.Sprintf("(forall ((j Int)) (! (=> (and (<= %s j) (< j (+ %s %s))) (= (select %s j) (select %s (+ (- j %s) %s)))) :pattern ((select %s j))))", dst.O, dst.O, n, na, srcRow, dst.O, src.O, na))
+			e.assumeGlobal(fmt.Sprintf("(forall ((j Int)) (! (=> (and (<= %s j) (< j (+ %s %s))) (= (select %s j) (select %s (+ (- j %s) %s)))) :pattern ((select %s j))))", dst.O, dst.O, n, na, srcRow, dst.O, src.O, na))
 		} else if srcStr != "" && so == "Int" {
-			e.assume(fmt.Sprintf("(forall ((j Int)) (! (=> (and (<= %s j) (< j (+ %s %s))) (= (select %s j) (sat %s (- j %s)))) :pattern ((select %s j))))", dst.O, dst.O, n, na, srcStr, dst.O, na))
+			e.assumeGlobal(fmt.Sprintf("(forall ((j Int)) (! (=> (and (<= %s j) (< j (+ %s %s))) (= (select %s j) (sat %s (- j %s)))) :pattern ((select %s j))))", dst.O, dst.O, n, na, srcStr, dst.O, na))
 		}
 		e.setComp(h, name, fmt.Sprintf("(store %s %s %s)", arr, dst.B, na))
 	}
@@ -1560,4 +1567,31 @@ func (w *World) inlinable(fn *ssa.Function) bool {
 		}
 	}
 	return n <= inlineMaxInstrs
+}
+
+// assumeHeapBelow: every reference stored in the heap h was allocated no later than the watermark (an invariant of
+// allocation: nothing can hold a reference to an object that does not exist yet). Stated for the components that hold
+// references and are currently materialised.
+func (e *Engine) assumeHeapBelow(h *Heap, water string) {
+	var ks []string
+	for k := range h.m {
+		if e.refComp[k] {
+			ks = append(ks, k)
+		}
+	}
+	sort.Strings(ks)
+	for _, k := range ks {
+		v := h.m[k]
+		key := "below:" + v + ":" + water
+		if e.once[key] {
+			continue
+		}
+		e.once[key] = true
+		e.useQuant = true
+		if strings.HasPrefix(e.comps[k], "(Array Int (Array Int") {
+			e.assume(fmt.Sprintf("(forall ((r Int) (i Int)) (! (<= (select (select %s r) i) %s) :pattern ((select (select %s r) i))))", v, water, v))
+		} else if e.comps[k] == "(Array Int Int)" {
+			e.assume(fmt.Sprintf("(forall ((r Int)) (! (<= (select %s r) %s) :pattern ((select %s r))))", v, water, v))
+		}
+	}
 }
